@@ -1,2 +1,8 @@
 import Properties.C01
 import Properties.C02
+import Properties.C03
+import Properties.C09
+import Properties.C10
+import Properties.C13
+import Properties.C12
+import Properties.C19
